@@ -40,3 +40,16 @@ Example C05_example :
   contiguous N [(1%N, 10%N); (1%N, 11%N); (2%N, 12%N)] = true /\
   ungroup N (group N [(1%N, 10%N); (2%N, 12%N); (1%N, 11%N)]) = [(1%N, 10%N); (1%N, 11%N); (2%N, 12%N)].
 Proof. vm_compute. repeat split. Qed.
+
+(* the default convention with single values and lists (converters/base.py after fix ebb313b): for every choice of
+   which particles are single and of force_list, flattening the collected children restores the child sequence when
+   same-named children are contiguous *)
+Theorem C05_children_roundtrip : forall (V : Type) (single : N -> bool) (force_list : bool) (l : list (N * V)),
+  contiguous V l = true -> encode_children V (decode_children V single force_list l) = l.
+Proof. exact children_roundtrip. Qed.
+Print Assumptions C05_children_roundtrip.
+
+Example C05_children_example :
+  decode_children N (fun k => N.eqb k 2) false [(1%N, 10%N); (1%N, 11%N); (2%N, 12%N); (3%N, 13%N)]
+  = [(1%N, Many [10%N; 11%N]); (2%N, One 12%N); (3%N, Many [13%N])].
+Proof. vm_compute. reflexivity. Qed.
